@@ -312,6 +312,20 @@ theorem swarm_run_pbest (cfg : Cfg) (G : Nat) (init : List Vec) (steps : List St
       simp [Swarm.pbestReplaced, h2']
     rw [h4, h5, e1, hr]; simp
 
+/-- **PSOGA, particle-swarm half of an iteration** (`update_velocity` with PSOGA's own formula,
+then `update_position`): for every swarm, leader archive and draws, whenever the two phases end,
+no particle is lost, every velocity component after `update_velocity` is within ± half the
+parameter range, and every position after `update_position` lies exactly inside the box (for
+positions of the box's dimension). -/
+theorem psoga_flight_clamped_and_in_box (params : List Param) (leaders ps : List Particle) (ds : List VelDraw)
+    (r : List Particle × List Particle) (hb : ∀ p ∈ params, p.lb ≤ p.ub)
+    (h : psogaFlight params leaders ps ds = some r) :
+    r.1.length = ps.length ∧ r.2.length = ps.length ∧
+    (∀ v ∈ r.1, v.vel.length = v.d.vec.length ∧
+      ∀ pc ∈ List.zip params v.vel, -((pc.1.ub - pc.1.lb) / 2) ≤ pc.2 ∧ pc.2 ≤ (pc.1.ub - pc.1.lb) / 2) ∧
+    ((∀ p ∈ ps, p.d.vec.length = params.length) → ∀ q ∈ r.2, inBoxExact params q.d.vec = true) :=
+  psogaFlight_spec hb h
+
 /-! ### Non-vacuity of the run-model theorems
 
 A concrete run with `N = 1`, `G = 2` in the box `[0, 1]`, one objective `f x = [x₀]`: the initial
@@ -377,6 +391,11 @@ example (a : Alg) : PosEps (exCfg a).eps ∧ ∀ k n v c, (exCfg a).env.obj k n 
     split at h
     · cases h
     · cases h; rfl
+
+-- PSOGA flight of the one-particle swarm at `1/2` towards itself: `v = 1·(1/2)`, clamped to `1/2`; the sum `1` is on the bound
+example : (psogaFlight [⟨0, 1, 0⟩] [{ freshParticle 9 7 [1 / 2] with d := { fresh 9 7 [1 / 2] with signed := [1 / 2], marker := some 1 } }]
+    [{ freshParticle 0 7 [1 / 2] with bestVec := [1 / 2] }] [exDraw [1 / 2]]).map
+    (fun r => (r.1.map (·.vel), r.2.map (·.d.vec))) = some ([[1 / 2]], [[1]]) := by decide +kernel
 
 end NonVacuity
 
